@@ -25,6 +25,21 @@ var c13Extra = []string{
 	"MOV AX,0x", "MOV AX,0xZZ", "MOV AX,0x10000000000000000", "DB 1 2", "DB 1,,2", "DB ,", "MOV AX 1", "MOV AX;1", "MOV\tAX\t,\t1", "mov ax,1", "Mov Ax,1",
 }
 
+// deeply nested and long expressions (the run-time clause: work must not
+// grow exponentially with nesting depth or length)
+func init() {
+	nest := func(d int, core string) string { return strings.Repeat("(", d) + core + strings.Repeat(")", d) }
+	c13Extra = append(c13Extra,
+		"DB "+nest(48, "1"), "MOV AX,"+nest(48, "2+3"), "MOV AL,[BX+"+nest(40, "5")+"]", "QX EQU "+nest(48, "7")+" ; DB QX",
+		"DW "+nest(24, "1+"+nest(24, "2*3")), "DD 1"+strings.Repeat("+1", 200), "DB 2"+strings.Repeat("*1", 120),
+		"DB "+strings.TrimSuffix(strings.Repeat("1,", 300), ","), "MOV AX,1"+strings.Repeat(" ; MOV AX,1", 40),
+		// values whose low 32 bits are zero (a range check before or after a
+		// narrowing conversion sees a different number)
+		"ALIGNB 0x100000000", "ALIGNB 4294967296", "ALIGNB 0x300000000", "ALIGNB 0x10000*0x10000", "ORG 0x100000000", "INT 0x100000000", "SHL AX,0x100000000",
+		"DB 7%0x100000000", "DW 9/0x100000000", "OUT 0x100000000,AL", "IN AL,0x100000000", "DD 0x100000000", "MOV AL,[BX+0x100000000]", "JMP 0x100000000",
+	)
+}
+
 // VC13Stmt: ill-formed and unusual statements never crash the assembler.
 func VC13Stmt() {
 	all := append(append([]string{}, c07Invalid...), c13Extra...)
